@@ -263,6 +263,20 @@ func (r *Reader) readExplicitData(p []byte) (int, error) {
 	for r.pos > r.dRange[0] {
 		discardBuffer := p
 		discardBufferLen := r.pos - r.dRange[0]
+		if z, ok := r.decompressor.(*zeroesReader); ok {
+			// Skip over (instead of generating and then discarding) zeroes,
+			// so that seeking into the middle of a Zeroes chunk does not take
+			// time proportional to how far into the chunk we are seeking.
+			if discardBufferLen > int64(*z) {
+				discardBufferLen = int64(*z)
+			}
+			*z -= zeroesReader(discardBufferLen)
+			r.dRange[0] += discardBufferLen
+			if *z == 0 {
+				return 0, r.transitionFromStateBToStateC()
+			}
+			continue
+		}
 		if int64(len(discardBuffer)) > discardBufferLen {
 			discardBuffer = discardBuffer[:discardBufferLen]
 		}
